@@ -686,6 +686,9 @@ def validate_names(nodes):
     def check_identifier(name, where):
         if not re.match(r"[A-Za-z_][A-Za-z0-9_]*\Z", name):
             raise ModelError("'%s'%s is not an identifier" % (name, where))
+        if name.startswith("__"):
+            """ reserved in C++; mangled by Python inside the generated class bodies """
+            raise ModelError("'%s'%s starts with two underscores" % (name, where))
 
     for node in nodes:
         if isinstance(node, Include):
